@@ -451,7 +451,43 @@ func c16TestFile(pkg string, st importStyle, progs []*Program, own []*Program) (
 		}
 	}
 	sb.WriteString("}\n")
+	// an Example: `go test` only runs it because of its output comment, which is a free-floating comment inside the body
+	if len(own) > 0 && len(own[0].Entries) > 0 && !knownExclusions()["example-output-comment-dropped"] {
+		e := own[0].Entries[0]
+		if e.Kind == "drive" && len(e.Inputs) > 0 {
+			call := e.Call
+			in := e.Inputs[0]
+			for i := len(in) - 1; i >= 0; i-- {
+				call = strings.ReplaceAll(call, fmt.Sprintf("$%d", i), fmt.Sprint(in[i]))
+			}
+			call = strings.ReplaceAll(call, "$P", "")
+			fmt.Fprintf(&sb, "\nfunc ExampleDrain() {\n\tfmt.Println(len(drainT[%s](func() iterI[%s] { return %s })) >= 0)\n\t// a comment in the middle\n\tfmt.Println(\"done\")\n\t// Output:\n\t// true\n\t// done\n}\n", e.Elem, e.Elem, call)
+		}
+	}
 	return sb.String(), nil
+}
+
+var reListedTest = regexp.MustCompile(`(?m)^(Test|Benchmark|Fuzz|Example)\S*$`)
+
+// listedTests: the names `go test -list` reports per package ("ok <pkg>" lines separate the packages): tests, benchmarks, fuzz
+// targets and the examples that have an output comment (the others are compiled, never run)
+func listedTests(root string, tags ...string) (string, *cmdResult) {
+	args := append([]string{"test", "-vet=off", "-count=1", "-list", ".*"}, tags...)
+	args = append(args, "./...")
+	r := runCmd(root, 10*time.Minute, nil, "go", args...)
+	if r.code != 0 {
+		return "", &r
+	}
+	var out []string
+	for _, l := range strings.Split(r.out, "\n") {
+		l = strings.TrimSpace(l)
+		if reListedTest.MatchString(l) {
+			out = append(out, l)
+		} else if f := strings.Fields(l); len(f) >= 2 && (f[0] == "ok" || f[0] == "?") {
+			out = append(out, "-- "+f[1])
+		}
+	}
+	return strings.Join(out, "\n"), nil
 }
 
 func (rs *runState) runC16Layout(idx int, lay c16Layout) *violationT {
@@ -591,6 +627,11 @@ func (rs *runState) runC16Layout(idx int, lay c16Layout) *violationT {
 		rs.infraProblem("C16 layout's tests do not build with the co tag before cogen ran:\n" + lastLines(r.out, 20))
 		return nil
 	}
+	testsBefore, lr := listedTests(root, "-tags", "co")
+	if lr != nil {
+		rs.infraProblem("C16 layout: go test -list fails with the co tag before cogen ran:\n" + lastLines(lr.out, 20))
+		return nil
+	}
 	before := snapshot(base)
 	// debris of a killed earlier run: a temporary directory with a generated-looking file that no source file derives
 	staleTmp := filepath.Join(root, pkgDir+"_co_tmp")
@@ -683,6 +724,13 @@ func (rs *runState) runC16Layout(idx int, lay c16Layout) *violationT {
 	}
 	if r := runCmd(root, 10*time.Minute, nil, "go", "test", "-vet=off", "-count=1", "./..."); r.code != 0 {
 		return mk("test", "after cogen the package tests fail without the co tag: "+lastLines(r.out, 12))
+	}
+	// "its tests pass": the tests that exist in the source must still be RUN (an Example whose output comment is lost compiles, is
+	// skipped silently and the package still reports ok)
+	if testsAfter, lr := listedTests(root); lr != nil {
+		return mk("test-list", "after cogen `go test -list` fails without the co tag: "+lastLines(lr.out, 8))
+	} else if testsAfter != testsBefore {
+		return mk("tests-not-run", fmt.Sprintf("the tests that `go test` runs differ: from the sources (co tag) %q, from the derived files %q", testsBefore, testsAfter))
 	}
 	if r := runCmd(root, 10*time.Minute, nil, "go", "build", "-tags", "co", "./..."); r.code != 0 {
 		return mk("co-tag-typecheck", "with the co tag the package no longer type-checks: "+lastLines(r.out, 8))
